@@ -61,6 +61,55 @@ func main() {
 		} else {
 			fmt.Println("LOAD ok", hex.EncodeToString(b))
 		}
+	case "storecancelled":
+		// Store with a context that is already cancelled: it may refuse, but if it reports success
+		// the node must be complete
+		payload, err := os.ReadFile(os.Args[4])
+		if err != nil {
+			fmt.Println("HARNESS error:", err)
+			os.Exit(2)
+		}
+		cctx, cancel := context.WithCancel(ctx)
+		cancel()
+		err = p.Store(cctx, name, payload)
+		if err != nil {
+			fmt.Println("STORE error:", err)
+		} else {
+			fmt.Println("STORE ok")
+		}
+	case "twowriters":
+		// two goroutines of one process store the same node at the same time; each reads it back
+		// as soon as its own Store has returned
+		payload, err := os.ReadFile(os.Args[4])
+		if err != nil {
+			fmt.Println("HARNESS error:", err)
+			os.Exit(2)
+		}
+		start := make(chan struct{})
+		res := make(chan string, 2)
+		for w := 0; w < 2; w++ {
+			go func(w int) {
+				<-start
+				err := p.Store(ctx, name, payload)
+				if err != nil {
+					res <- fmt.Sprintf("W%d store-error %v", w, err)
+					return
+				}
+				b, err := p.Load(ctx, name)
+				switch {
+				case err != nil:
+					res <- fmt.Sprintf("W%d STOREOK-LOADERR %v", w, err)
+				case bytes.Equal(b, payload):
+					res <- fmt.Sprintf("W%d complete", w)
+				default:
+					res <- fmt.Sprintf("W%d STOREOK-WRONG %d of %d", w, len(b), len(payload))
+				}
+			}(w)
+		}
+		close(start)
+		fmt.Println("TW", <-res)
+		fmt.Println("TW", <-res)
+		fmt.Println("STORE ok")
 	case "storeretryload":
 		// the same process stores the node, (possibly fails,) stores it again, and reads it back
 		payload, err := os.ReadFile(os.Args[4])
